@@ -95,11 +95,15 @@ pub fn random_u256() -> U256 {
     let mut ret;
     loop {
         rng.fill_bytes(&mut buf[..]);
+        #[cfg(gm_rs_verif)]
+        crate::verif_hooks::override_candidate(&mut buf);
         ret = u256_from_be_bytes(&buf);
         if u256_cmp(&ret, &crate::fields::fn64::SM2_N) < 0 && ret != [0, 0, 0, 0] {
             break;
         }
     }
+    #[cfg(gm_rs_verif)]
+    crate::verif_hooks::record(&ret);
     ret
 }
 
